@@ -555,7 +555,7 @@ def tr_cover(prog: Program, res: Result) -> None:
     for n in ast.walk(sol.node):
         if isinstance(n, ast.Subscript) and isinstance(n.ctx, ast.Load) and isinstance(n.value, ast.Name) and n.value.id in written \
                 and isinstance(n.slice, ast.Slice) and n.slice.upper is not None and n not in list(ast.walk(loop)):
-            c = _affine(n.slice.upper, var)
+            c = _affine(sol.resolve(n.slice.upper, keep=(var,)), var)      # a named bound (n_recorded = n_epoch + 2) reads as its definition
             nm = n.value.id
             desc = f"returned prefix of {nm} covers the entry written for the last epoch"
             n_checked += 1
